@@ -269,6 +269,8 @@ enum What {
     Paging { pages: usize },
     /// query_singular: the first page only, without a trailing terminator
     Singular,
+    /// groups of up to all 18 filter kinds (the NAND / NOR group headers carry the number of filters in decimal)
+    LargeGroups,
 }
 
 fn cases(tier: Tier) -> Vec<(String, What)> {
@@ -281,6 +283,7 @@ fn cases(tier: Tier) -> Vec<(String, What)> {
         v.push((format!("paging: {pages} pages"), What::Paging { pages }));
     }
     v.push(("query_singular: first page only".to_string(), What::Singular));
+    v.push(("groups of 8..18 different filter kinds, in each group and in all three at once".to_string(), What::LargeGroups));
     v
 }
 
@@ -356,6 +359,31 @@ impl Prop for C16 {
                     let ch: Vec<u32> = s.history.iter().flat_map(|(g, k, v)| [*g as u32, *k as u32, *v as u32]).collect();
                     ctx.violation(class, &ch, format!("insertion history (group, kind, value) {:?}", s.history), got, want, vec![]);
                 }
+            }
+            What::LargeGroups => {
+                let mut n = 0u64;
+                for size in 8 ..= 18u8 {
+                    // one group filled, then all three
+                    let mut histories: Vec<Vec<(u8, u8, u8)>> = (0 .. 3u8).map(|g| (0 .. size).map(|k| (g, k, (k % 2))).collect()).collect();
+                    histories.push((0 .. 3u8).flat_map(|g| (0 .. size).map(move |k| (g, k, 1))).collect());
+                    // in descending kind order too (the order of insertion must not matter to the count)
+                    histories.push((0 .. size).rev().map(|k| (1u8, k, 0)).collect());
+                    for h in histories {
+                        n += 1;
+                        let mut groups: [BTreeMap<u8, u8>; 3] = Default::default();
+                        for (g, k, v) in &h {
+                            groups[*g as usize].insert(*k, *v);
+                        }
+                        ctx.distinct_key(&h);
+                        if let Err((class, got, want)) = check_state(&groups, &h, REGIONS[3]) {
+                            ctx.violation(format!("{class}:large-group"), &[size as u32], format!("{size} kinds per group, history {h:?}"), got, want, vec![]);
+                        }
+                    }
+                }
+                ctx.counters.evaluations += n;
+                ctx.counters.states += n;
+                ctx.counters.transitions += n;
+                ctx.sample(serde_json::json!({"case": label, "histories": n}));
             }
             What::Regions => {
                 for region in REGIONS {
